@@ -18,6 +18,7 @@ import ast
 
 from ..astutil import call_name, calls, const_eval, dotted, names_in, param_names, stmts, walk_local, NotConst, Sym
 from ..cfg import CFG
+from .. import bcifwire
 from ..core import AnalysisError, Mutant
 
 EXPLANATION = (
@@ -50,6 +51,7 @@ def snake_to_camel(name):
 
 
 def run(ctx):
+    bcifwire.check(ctx, "R5")
     s = ctx.src(ENC)
     # ---------------- R1 registry ---------------------------------------------
     classes = {}
@@ -160,6 +162,11 @@ def run(ctx):
            and g.path(outer[0].id, casts[0].id, blocked={c.id for c in checks} | {b for b in g.succ[outer[0].id] if g.ekind[(outer[0].id, b)] == "f"}) is None,
            "the conversion is reachable on the integer path without passing the range check", sc.lineno)
 
+    compress_rules(ctx, "R3")
+
+def compress_rules(ctx, R="R3", with_downcast=True):
+    """automatic compression (compress.py): range/finiteness guard of the fixed point encoding, the factor, lossless fallback,
+    integer down-cast bounds, tolerance of the decimal places - shared with C04 ('also after compression')"""
     # ---------------- R3 compress ---------------------------------------------------
     cz = ctx.src(COMPRESS)
     cd = cz.func("_compress_data")
@@ -177,34 +184,40 @@ def run(ctx):
         true_succ = [b for b in g2.succ[gd.id] if g2.ekind[(gd.id, b)] == "t"]
         reach_true = g2.reachable(true_succ)
         ok = ok or (gd.id in dom2.get(fixed[0].id, set()) and fixed[0].id not in reach_true)
-    ctx.ob("R3.fixed-point-guarded", COMPRESS, "_compress_data", "finite and |x| * factor < int32 max before FixedPointEncoding.encode",
+    ctx.ob(R + ".fixed-point-guarded", COMPRESS, "_compress_data", "finite and |x| * factor < int32 max before FixedPointEncoding.encode",
            ok,
            "compress() hands float data to FixedPointEncoding.encode (an unchecked cast to int32) without testing "
            "finiteness and range first: [1e-3, 1e9, 5.0] decodes to [1e-3, -2.1e6, 5.0]", fixed[0].line)
     if guards:
         gtxt = ast.unparse(guards[0].ast.test)
-        ctx.ob("R3.fixed-point-guard-scaled", COMPRESS, "_compress_data", gtxt[:90],
+        ctx.ob(R + ".fixed-point-guard-scaled", COMPRESS, "_compress_data", gtxt[:90],
                "* factor" in gtxt and "np.abs(array)" in gtxt,
                "the range test must be applied to the scaled magnitude |x| * factor", guards[0].line)
-        ctx.ob("R3.fallback-lossless", COMPRESS, "_compress_data", "fallback ByteArrayEncoding()",
+        ctx.ob(R + ".fallback-lossless", COMPRESS, "_compress_data", "fallback ByteArrayEncoding()",
                any("ByteArrayEncoding()" in ast.unparse(b) for b in guards[0].ast.body),
                "values that do not fit must be kept losslessly", guards[0].line)
     # the factor passed to the encoding is the one tested
     fp = [c for c in calls(cd) if call_name(c) == "FixedPointEncoding"]
-    ctx.ob("R3.same-factor", COMPRESS, "_compress_data", ast.unparse(fp[0]) if fp else "-",
+    ctx.ob(R + ".same-factor", COMPRESS, "_compress_data", ast.unparse(fp[0]) if fp else "-",
            bool(fp) and isinstance(fp[0].args[0], ast.Name) and (not guards or fp[0].args[0].id in names_in(guards[0].ast.test)),
            "the factor that is range-tested must be the factor that is used", cd.lineno)
-    from .C04 import downcast_bounds
-    downcast_bounds(ctx, "R3.downcast-bounds")
+    if with_downcast:
+        from .C04 import downcast_bounds
+        downcast_bounds(ctx, R + ".downcast-bounds")
     # decimal places honour the tolerance
     gd_ = cz.func("_get_decimal_places")
-    ctx.ob("R3.tolerance", COMPRESS, "_get_decimal_places", "error < tol * |x| for all finite non-zero values",
+    ctx.ob(R + ".tolerance", COMPRESS, "_get_decimal_places", "error < tol * |x| for all finite non-zero values",
            "np.all(error < tol * np.abs(array))" in ast.unparse(gd_) and "np.isfinite(array) & (array != 0)" in ast.unparse(gd_),
            "the number of decimals must be chosen so that the relative error stays below the tolerance", gd_.lineno,
            nontrivial=False)
 
 
 MUTANTS = [
+    Mutant("bcif-prefix-lstrip", "structure/io/pdbx/bcif.py", "name.removeprefix(\"_\"): category", "name.lstrip(\"_\"): category", "R5.prefix"),
+    Mutant("bcif-mask-key", "structure/io/pdbx/bcif.py", "BinaryCIFData.deserialize(content[\"mask\"])\n", "BinaryCIFData.deserialize(content[\"data\"])\n", "R5.attribute"),
+    Mutant("bcif-data-mask-swapped", "structure/io/pdbx/bcif.py", "            \"data\": self._data.serialize(),\n            \"mask\": self._mask.serialize() if self._mask is not None else None,", "            \"mask\": self._data.serialize(),\n            \"data\": self._mask.serialize() if self._mask is not None else None,", "R5.attribute"),
+    Mutant("bcif-element-key", "structure/io/pdbx/bcif.py", "BinaryCIFFile._deserialize_elements(content[\"dataBlocks\"], \"header\")", "BinaryCIFFile._deserialize_elements(content[\"dataBlocks\"], \"name\")", "R5.elements"),
+    Mutant("bcif-raw-strings", "structure/io/pdbx/bcif.py", "msgpack.unpackb(f.read(), use_list=True, raw=False)", "msgpack.unpackb(f.read(), use_list=True, raw=True)", "R5.msgpack-types"),
     Mutant("registry-delta-removed", ENC, '    "Delta": DeltaEncoding,\n', "", "R1.registry-covers-classes"),
     Mutant("registry-kind-swapped", ENC, '    "RunLengthEncoding": "RunLength",\n    "DeltaEncoding": "Delta",', '    "RunLengthEncoding": "Delta",\n    "DeltaEncoding": "RunLength",',
            "R1.registry-inverse"),
